@@ -220,9 +220,20 @@ class Ctx:
             for attempt in (0, 1):
                 try:
                     t = time.time()
-                    p = subprocess.run(job["cmd"], env=env, stdout=subprocess.PIPE, stderr=subprocess.PIPE,
-                                       timeout=job.get("timeout", timeout), cwd=job.get("cwd"))
-                    return job, p.returncode, p.stdout.decode(errors="replace"), p.stderr.decode(errors="replace"), time.time() - t
+                    # own process group, so that a watchdog kill takes the job's own children (forked cases, valgrind,
+                    # traced programs) with it
+                    pp = subprocess.Popen(job["cmd"], env=env, stdout=subprocess.PIPE, stderr=subprocess.PIPE, cwd=job.get("cwd"),
+                                          start_new_session=True)
+                    try:
+                        so, se = pp.communicate(timeout=job.get("timeout", timeout))
+                    except subprocess.TimeoutExpired:
+                        try:
+                            os.killpg(pp.pid, signal.SIGKILL)
+                        except OSError:
+                            pass
+                        pp.communicate()
+                        raise
+                    return job, pp.returncode, so.decode(errors="replace"), se.decode(errors="replace"), time.time() - t
                 except subprocess.TimeoutExpired:
                     if attempt == 1:
                         return job, None, "", "watchdog", 0.0
